@@ -5,6 +5,7 @@ import (
 	"crypto/sha256"
 	"fmt"
 	"golang.org/x/crypto/ripemd160"
+	"math/big"
 
 	"github.com/libsv/go-bt/v2"
 	"github.com/libsv/go-bt/v2/bscript"
@@ -123,3 +124,29 @@ func refHash160(b []byte) []byte {
 	r.Write(h[:])
 	return r.Sum(nil)
 }
+
+func libScriptNoCopy(b []byte) *bscript.Script {
+	s := bscript.Script(b)
+	return &s
+}
+
+// minimalPush returns the push instruction MINIMALDATA demands for d.
+func minimalPush(d []byte) []byte {
+	switch {
+	case len(d) == 0:
+		return []byte{0x00}
+	case len(d) == 1 && d[0] >= 1 && d[0] <= 16:
+		return []byte{0x50 + d[0]}
+	case len(d) == 1 && d[0] == 0x81:
+		return []byte{0x4f}
+	case len(d) <= 75:
+		return append([]byte{byte(len(d))}, d...)
+	case len(d) <= 255:
+		return append([]byte{0x4c, byte(len(d))}, d...)
+	case len(d) <= 65535:
+		return append([]byte{0x4d, byte(len(d)), byte(len(d) >> 8)}, d...)
+	}
+	return append([]byte{0x4e, byte(len(d)), byte(len(d) >> 8), byte(len(d) >> 16), byte(len(d) >> 24)}, d...)
+}
+
+func bigInt(v int64) *big.Int { return big.NewInt(v) }
